@@ -459,6 +459,37 @@ def run_large(rec, sh, tier, seed):
                 Xs = shuffle(X, start=2, end=9, n=20, random_state=4)
                 ea = _stack([_stack([[o[0] for o in _pred1(model, Xs[i, j:j + 1], [args[0][i:i + 1]])] for j in range(20)]) for i in range(B)])
                 _cmp(rec, "ablate:before", case, _aslist(val[0]), exp_rows(X)) and _cmp(rec, "ablate:after", case, _aslist(val[1]), ea)
+        # ablate with an index-seeded shuffler (dinucleotide_shuffle seeds example i with random_state + i) on > 256 examples
+        if B == 300:
+            from tangermeme.ersatz import dinucleotide_shuffle
+            # (n=1: with n >= 2 the shuffler refuses sequences whose shuffles all coincide)
+            st, val = call(ablate, model, X, 1, L - 1, n=1, shuffle_fn=dinucleotide_shuffle, args=args, random_state=9, device="cpu", batch_size=64)
+            case = dict(w="ablate", B=B, L=L, n_out=n_out, shuffle_fn="dinucleotide_shuffle", n=1)
+            rec.case(1, 1)
+            if st != "ok":
+                rec.violation("ablate:raises", case, observed=val)
+            else:
+                Xs = dinucleotide_shuffle(X, start=1, end=L - 1, n=1, random_state=9)
+                ea = _stack([_stack([[o[0] for o in _pred1(model, Xs[i, j:j + 1], [args[0][i:i + 1]])] for j in range(1)]) for i in range(B)])
+                _cmp(rec, "ablate:after:index_seeded_shuffler", case, _aslist(val[1]), ea)
+        # non-default alphabet order with string motifs (marginalize and space)
+        alt = ["T", "G", "C", "A"]
+        st, val = call(marginalize, model, X, "GAT", start=2, alphabet=alt, args=args, device="cpu")
+        case = dict(w="marginalize", B=B, L=L, n_out=n_out, alphabet="TGCA")
+        rec.case(1, 1)
+        if st != "ok":
+            rec.violation("marginalize:raises:alphabet", case, observed=val)
+        else:
+            _cmp(rec, "marginalize:after:alphabet", case, _aslist(val[1]), exp_rows(substitute(X, "GAT", start=2, alphabet=alt)))
+        grid2 = [[0], [3], [1]]
+        st, val = call(space, model, X, ["GA", "TC"], grid2, start=1, alphabet=alt, args=args, device="cpu")
+        case = dict(w="space", B=B, L=L, n_out=n_out, alphabet="TGCA")
+        rec.case(1, 1)
+        if st != "ok":
+            rec.violation("space:raises:alphabet", case, observed=val)
+        else:
+            ea = _stack([_stack([[o[0] for o in _pred1(model, multisubstitute(X[i:i + 1], ["GA", "TC"], g, start=1, alphabet=alt), [args[0][i:i + 1]])] for g in grid2]) for i in range(B)])
+            _cmp(rec, "space:after:alphabet", case, _aslist(val[1]), ea)
         # marginalize: keywords routed through additional_func_kwargs and/or **kwargs; list vs tuple args; default batch size
         Xp = substitute(X, "GAT", start=4)
         for ci, (afk, kw) in enumerate(((dict(batch_size=7, device="cpu"), dict(args=args)), (dict(device="cpu", args=tuple(args)), dict(batch_size=33)),
